@@ -6,10 +6,36 @@ package v2
 
 // conversion of the request body: one fresh alert object per posted alert, times copied (assumed: JSON decoding and
 // label conversion are outside the verified subset)
+// Verified with safety obligations: the batch may contain null entries (the generated validation skips them - a genuine
+// panic was repaired, see known_findings.txt); a null entry yields an alert without labels, which validation rejects.
 //@ func OpenAPIAlertsToAlerts
-//@   trusted
-//@   ensures fresh(result) && (forall i int :: 0 <= i && i < len(result) ==> result[i] != nil && fresh(result[i]) && !result[i].Timeout)
-//@   ensures forall i int, j int :: 0 <= i && i < j && j < len(result) ==> result[i] != result[j]
+//@   props C13
+//@   requires tracer != nil && ctx != nil
+//@   after call Tracer).Start assume res0 != nil && res1 != nil
+//@   ensures [one-alert-per-entry] fresh(result) && len(result) == len(apiAlerts) && (forall i int :: 0 <= i && i < len(result) ==> result[i] != nil && fresh(result[i]) && !result[i].Timeout)
+//@   ensures [distinct] forall i int, j int :: 0 <= i && i < j && j < len(result) ==> result[i] != result[j]
+//@   ensures [null-entry-becomes-an-invalid-alert] forall i int :: 0 <= i && i < len(apiAlerts) && apiAlerts[i] == nil ==> result[i].Labels == nil && result[i].StartsAt == 0
+//@   loop 1 invariant rangeindex < len(apiAlerts) && fresh(alerts) && len(alerts) == rangeindex + 1
+//@   loop 1 invariant forall i int :: 0 <= i && i < len(alerts) ==> alerts[i] != nil && fresh(alerts[i]) && !alerts[i].Timeout
+//@   loop 1 invariant forall i int, j int :: 0 <= i && i < j && j < len(alerts) ==> alerts[i] != alerts[j]
+//@   loop 1 invariant forall i int :: 0 <= i && i <= rangeindex && apiAlerts[i] == nil ==> alerts[i].Labels == nil && alerts[i].StartsAt == 0
+//@   freshonly APILabelSetToModelLabelSet
+//@   noeffect Tracer).Start Span).End
+//@   assigns nothing
+
+// C12: conversion of a posted silence. The generated validation guarantees the required fields of the silence and of
+// every non-null matcher (assumed), but skips null matchers: a null entry is answered with an error (a genuine panic
+// was repaired, see known_findings.txt), never dereferenced.
+//@ func PostableSilenceToProto
+//@   props C12
+//@   requires s != nil
+//@   assumes s.StartsAt != nil && s.EndsAt != nil && s.Comment != nil && s.CreatedBy != nil
+//@   assumes forall i int :: 0 <= i && i < len(s.Matchers) && s.Matchers[i] != nil ==> s.Matchers[i].Name != nil && s.Matchers[i].Value != nil
+//@   ensures [null-matcher-refused] (exists i int :: 0 <= i && i < len(s.Matchers) && s.Matchers[i] == nil) ==> result1 != nil && result0 == nil
+//@   ensures [otherwise-converted] (forall i int :: 0 <= i && i < len(s.Matchers) ==> s.Matchers[i] != nil) ==> result1 == nil && result0 != nil && fresh(result0)
+//@             && len(result0.MatcherSets) == 1 && result0.MatcherSets[0] != nil && len(result0.MatcherSets[0].Matchers) == len(s.Matchers) && result0.Id == s.ID
+//@   loop 1 invariant rangeindex < len(s.Matchers) && fresh(matcherSet) && fresh(sil) && (matcherSet.Matchers == nil || fresh(matcherSet.Matchers)) && len(matcherSet.Matchers) == rangeindex + 1 && (forall k int :: 0 <= k && k <= rangeindex ==> s.Matchers[k] != nil) && sil.Id == s.ID && len(sil.MatcherSets) == 0
+//@   noeffect timestamppb.New
 //@   assigns nothing
 
 // C13: labels with empty values are dropped, nothing else changes
